@@ -38,6 +38,7 @@ import (
 func init() {
 	families["kafka.conv"] = &Family{Gen: genKafkaConv, Run: runKafkaConv}
 	families["kafka.raw"] = &Family{Gen: genKafkaRaw, Run: runKafkaRaw}
+	families["kafka.split"] = &Family{Gen: genKafkaSplit, Run: runKafkaSplit}
 }
 
 // ---- observation of the real dissector
@@ -64,12 +65,21 @@ func kafkaErrKind(err error) string {
 }
 
 func kafkaDissectHalf(b []byte, r *mock.Reader) (kind string) {
+	return kafkaDissectChunks([][]byte{b}, r)
+}
+
+// kafkaDissectChunks: the half arrives as the given reads
+func kafkaDissectChunks(chunks [][]byte, r *mock.Reader) (kind string) {
 	defer func() {
 		if rec := recover(); rec != nil {
 			kind = "panic:" + fmt.Sprintf("%x", fmt.Sprint(rec))
 		}
 	}()
-	return kafkaErrKind(kafkaExt.NewDissector().Dissect(bufio.NewReader(bytes.NewReader(b)), r))
+	cp := make([][]byte, len(chunks))
+	for i := range chunks {
+		cp[i] = append([]byte{}, chunks[i]...)
+	}
+	return kafkaErrKind(kafkaExt.NewDissector().Dissect(bufio.NewReader(&chunkReader{chunks: cp, tail: "eof"}), r))
 }
 
 // kafkaValSx prints a decoded payload by reflection: what the item carries, with the JSON
@@ -128,13 +138,17 @@ func kafkaValSx(v reflect.Value) sx.Sx {
 }
 
 func kafkaObserve(cb, sb []byte) sx.Sx {
+	return kafkaObserveChunks([][]byte{cb}, [][]byte{sb})
+}
+
+func kafkaObserveChunks(cchunks, schunks [][]byte) sx.Sx {
 	d := kafkaExt.NewDissector()
 	m := d.NewResponseRequestMatcher()
 	m.SetMaxTry(1)
 	out := make(chan *api.OutputChannelItem, 1<<16)
 	conn := mock.NewConn(d, m, &api.AppStats{}, out, "pcap0", "10.0.0.1", "40000", "10.0.0.2", "9092")
-	ck := kafkaDissectHalf(cb, conn.Client)
-	sk := kafkaDissectHalf(sb, conn.Server)
+	ck := kafkaDissectChunks(cchunks, conn.Client)
+	sk := kafkaDissectChunks(schunks, conn.Server)
 	close(out)
 	items := []sx.Sx{sx.A("items")}
 	for it := range out {
@@ -714,4 +728,81 @@ func genKafkaStages(r *Rand, tier string, emit func(sx.Sx)) {
 			}
 		}
 	}
+}
+
+// Family kafka.split (C08): the streams of kafka.conv (clean and not) and of kafka.raw delivered
+// in pieces: every two-piece split of short halves, random multi-piece splits down to single
+// bytes. payload: ((#chunk ...) (#chunk ...)); the observation must be the one the bytes alone
+// determine.
+func runKafkaSplit(p sx.Sx) sx.Sx {
+	var cc, sc [][]byte
+	for _, c := range p.List[0].List {
+		cc = append(cc, c.Bytes())
+	}
+	for _, c := range p.List[1].List {
+		sc = append(sc, c.Bytes())
+	}
+	return kafkaObserveChunks(cc, sc)
+}
+
+func genKafkaSplit(r *Rand, tier string, emit func(sx.Sx)) {
+	g := &kgoGen{r: r}
+	chunksSx := func(cs [][]byte) sx.Sx {
+		var out []sx.Sx
+		for _, c := range cs {
+			out = append(out, sx.B(c))
+		}
+		return sx.L(out...)
+	}
+	randSplit := func(b []byte) [][]byte {
+		var out [][]byte
+		for len(b) > 0 {
+			n := 1 + r.Intn(9)
+			if r.Chance(30) {
+				n = 1
+			} else if r.Chance(20) {
+				n = 1 + r.Intn(200)
+			}
+			if n > len(b) {
+				n = len(b)
+			}
+			out = append(out, b[:n])
+			b = b[n:]
+		}
+		return out
+	}
+	n := 60
+	if tier == "thorough" {
+		n = 600
+	}
+	corr := 500
+	for i := 0; i < n; i++ {
+		var cb, sb []byte
+		g.clean = r.Chance(70)
+		for k := 1 + r.Intn(3); k > 0; k-- {
+			corr++
+			var e kafkaExchange
+			if r.Chance(20) {
+				e = g.otherExchange(corr)
+			} else {
+				a := kgoApis[r.Intn(len(kgoApis))]
+				e = g.exchange(a, a.min+r.Intn(a.max-a.min+1), corr)
+			}
+			cb, sb = append(cb, e.qw...), append(sb, e.rw...)
+		}
+		if r.Chance(15) && len(cb) > 3 { // a truncated half
+			cb = cb[:r.Intn(len(cb))]
+		}
+		// every two-piece split of a short half, the other half whole
+		if len(cb) <= 80 {
+			for k := 1; k < len(cb); k++ {
+				emit(sx.L(chunksSx([][]byte{cb[:k], cb[k:]}), chunksSx([][]byte{sb})))
+			}
+		}
+		for rep := 0; rep < 4; rep++ {
+			emit(sx.L(chunksSx(randSplit(cb)), chunksSx(randSplit(sb))))
+		}
+		emit(sx.L(chunksSx([][]byte{cb}), chunksSx([][]byte{sb})))
+	}
+	g.clean = false
 }
